@@ -230,3 +230,117 @@ class KillProcess(object):
         if obs['stopping'] or not obs['closed']:
             bad.add('post[12]')
         return bad
+
+
+# ---------------------------------------------------------------------------- spawn_process
+@register('circus.watcher:Watcher.spawn_process')
+class SpawnProcess(object):
+    """real Watcher.spawn_process with the Process class replaced by a kernel double; hook outcomes,
+    exec failures and worker behaviour are the inputs"""
+
+    def from_model(self, m):
+        return []
+
+    def enumerate(self):
+        for status in ('active', 'stopped', 'starting'):
+            for before in (None, True, False, 'raise'):
+                for after in (None, True, False, 'raise'):
+                    for fail_first in (0, 1, 9):
+                        for stubborn in (False, True):
+                            for listed in ((), (1,), (1, 2)):
+                                yield {'status': status, 'before_spawn': before, 'after_spawn': after,
+                                       'exec_failures': fail_first, 'stubborn': stubborn,
+                                       'listed_wids': list(listed), 'numprocesses': 2}
+
+    def run(self, inp):
+        import circus.watcher as W
+        from tornado import concurrent
+        k = FakeKernel()
+        created = []
+        attempts = [0]
+
+        def proc_factory(name, wid, cmd, **kw):
+            attempts[0] += 1
+            if attempts[0] <= inp['exec_failures']:
+                raise OSError(2, 'exec failed')
+            p = FakeProcess(k, 5000 + len(created), delay_after_stop=None if inp['stubborn'] else 0.0)
+            p.wid = wid
+            p.started = k.now
+            p.redirected = False
+            created.append(p)
+            return p
+
+        class TW(W.Watcher):
+            @property
+            def _process_class(self):
+                return proc_factory
+        w = TW('replay', 'sleep 1', numprocesses=inp['numprocesses'], graceful_timeout=0.3)
+        events = []
+        w.notify_event = lambda topic, msg: events.append((topic, dict(msg)))
+
+        def mk(outcome):
+            def hook(**kw):
+                if outcome == 'raise':
+                    raise RuntimeError('hook')
+                return outcome
+            return hook
+        for hname in ('before_spawn', 'after_spawn'):
+            if inp[hname] is not None:
+                w.hooks[hname] = mk(inp[hname])
+        w._status = inp['status']
+        for i, wid in enumerate(inp['listed_wids']):
+            q = FakeProcess(k, 100 + i)
+            q.wid = wid
+            w.processes[q.pid] = q
+        before = dict(w.processes)
+
+        def vsleep(d):
+            f = concurrent.Future()      # never resolved: the detached kill_process stays suspended
+            return f
+        saved = W.tornado_sleep
+        W.tornado_sleep = vsleep
+        obs = {}
+        try:
+            r = w.spawn_process()
+            obs['result'] = r if isinstance(r, bool) else ('time' if isinstance(r, float) else repr(r))
+        except Exception as e:
+            obs['raised'] = type(e).__name__
+        finally:
+            W.tornado_sleep = saved
+        obs['created'] = [(p.pid, p.wid, p._alive()) for p in created]
+        obs['listed'] = sorted(w.processes)
+        obs['before'] = sorted(before)
+        obs['spawn_events'] = [m.get('process_pid') for t, m in events if t == 'spawn']
+        obs['wids'] = sorted(p.wid for p in w.processes.values())
+        obs['leaked'] = [p.pid for p in created if p._alive() and p.pid not in w.processes]
+        return obs
+
+    def check(self, inp, obs):
+        bad = set()
+        if 'raised' in obs:
+            return set(['noescape']) if obs['raised'] != 'RuntimeError' else set()
+        r = obs['result']
+        if inp['status'] == 'stopped':
+            if r is not True or obs['created'] or obs['listed'] != obs['before']:
+                bad.add('post[0]')
+            return bad
+        if len(obs['created']) > 1:
+            bad.add('post[1]')
+        if r == 'time':
+            new = [p for p in obs['listed'] if p not in obs['before']]
+            if len(new) != 1 or len(obs['created']) != 1 or new[0] != obs['created'][0][0]:
+                bad.add('post[3]')
+            if len(set(obs['wids'])) != len(obs['wids']) or any(x < 1 for x in obs['wids']):
+                bad.add('post[6]')
+            if obs['spawn_events'] != new:
+                bad.add('post[10]')
+        else:
+            if obs['listed'] != obs['before']:
+                bad.add('post[7]')
+            if obs['spawn_events']:
+                bad.add('post[11]')
+        if inp['before_spawn'] in (False, 'raise') and (r is not False or obs['created']):
+            bad.add('post[9]')
+        if obs['leaked']:
+            bad.add('post[accounted]')       # a live child that no watcher lists
+        return bad
